@@ -301,6 +301,17 @@ def check_bound(doc, case, lay, tris, pp, why):
         return why('bound', type(e).__name__, 'triangles through the scene raised %r' % (e,))
 
 
+def observe_bound(doc, case):
+    """index of the same primitive reached through the scene (None when it cannot be observed)"""
+    try:
+        bg = list(doc.scene.objects('geometry'))[0]
+        bp = list(bg.primitives())[0]
+        bts = bp.triangleset() if case['kind'] in ('polylist', 'polygons') else bp
+        return as_triangles(bts.index, case['nind'])
+    except Exception:  # noqa
+        return None
+
+
 def run_case_guarded(case):
     try:
         return run_case(case)
@@ -349,6 +360,8 @@ def run_case(case):
             if got and not cands:
                 why('attached', 'Triangle', 'triangle %d: the delivered vertex/normal/texcoord indices or data '
                     'are not those of its rows %r under any assignment of inputs' % (at, got[at]))
+        if out['index']:
+            out['bound_index'] = observe_bound(doc, case)
         if not fails:
             check_bound(doc, case, lay, out['index'], None, why)
         return out
@@ -445,6 +458,8 @@ def run_case(case):
             elif whole is not None and not [a for a in good if a in whole]:
                 why('per-polygon', 'agrees', 'Polygon.triangles() and triangleset() attach different inputs to the same '
                     'corners: per polygon %r, whole primitive %r (normal input, texcoord inputs by slot)' % (good, whole))
+    if out['tri_index']:
+        out['bound_index'] = observe_bound(doc, case)
     if not fails:
         check_bound(doc, case, lay, out['tri_index'], out['pp'], why)
     return out
